@@ -3,7 +3,9 @@ package main
 import (
 	"bytes"
 	"fmt"
+	"hash"
 	"hash/fnv"
+	"runtime"
 	"sort"
 	"strconv"
 	"strings"
@@ -126,7 +128,7 @@ func (o *oraclePartitioner) Partition(m *sarama.ProducerMessage, n int32) (int32
 // offered all partitions; round-robin and random only writable ones.
 func (o *oraclePartitioner) mustBeConsistent(m *sarama.ProducerMessage) bool {
 	switch o.kind {
-	case "hash", "", "refhash", "customhash", "custom-absfirst", "custom-hashfn", "custom-fallback":
+	case "hash", "", "refhash", "customhash", "custom-absfirst", "custom-hashfn", "custom-fallback", "customhash-slow", "custom-hashfn-slow":
 		return m.Key != nil
 	case "manual":
 		return true
@@ -154,6 +156,20 @@ func (b *badPartitioner) Partition(m *sarama.ProducerMessage, n int32) (int32, e
 	return b.inner.Partition(m, n)
 }
 
+// slowFnv is an application-supplied hasher that gives up the processor inside Write (an application's hasher may
+// block or yield): whatever the library does between Reset, Write and Sum32 of one hasher value becomes a scheduling
+// point, so two topics' partitioners sharing hasher state are found out.
+type slowFnv struct{ hash.Hash32 }
+
+func (h slowFnv) Write(p []byte) (int, error) {
+	runtime.Gosched()
+	n, err := h.Hash32.Write(p)
+	runtime.Gosched()
+	return n, err
+}
+
+func newSlowFnv() hash.Hash32 { return slowFnv{fnv.New32()} }
+
 func partitionerCtor(name string) sarama.PartitionerConstructor {
 	switch name {
 	case "manual":
@@ -172,6 +188,10 @@ func partitionerCtor(name string) sarama.PartitionerConstructor {
 		return sarama.NewCustomPartitioner(sarama.WithAbsFirst())
 	case "custom-hashfn":
 		return sarama.NewCustomPartitioner(sarama.WithCustomHashFunction(fnv.New32))
+	case "customhash-slow":
+		return sarama.NewCustomHashPartitioner(newSlowFnv)
+	case "custom-hashfn-slow":
+		return sarama.NewCustomPartitioner(sarama.WithCustomHashFunction(newSlowFnv))
 	case "custom-fallback":
 		return sarama.VerifCustomFallbackPartitioner
 	case "bad":
@@ -470,6 +490,7 @@ func (ps *prodScen) runAsync(actors []int, byActor map[int][]*cf.Op, closeThink 
 	if closeThink > 0 {
 		ps.r.nap(time.Duration(closeThink) * time.Microsecond)
 	}
+	ps.checkHeldBuffers()
 	ps.closeRequested = true
 	ps.closeUs = k.nowUs()
 	if ps.c.Config.CloseMode == "close" {
@@ -776,6 +797,85 @@ func (ps *prodScen) onHang(dump string) {
 	ps.judge()
 }
 
+// checkHeldBuffers (C16, fault-free runs with a count or byte trigger and no Flush.Frequency): once the input has
+// been quiet for longer than every request in the run could have taken, what is still held back per broker must
+// be below every configured trigger - "a buffered message is sent once any configured trigger fires, without
+// waiting for further input". Key+value bytes are a lower bound of what the producer counts per message.
+func (ps *prodScen) checkHeldBuffers() {
+	f := ps.c.Config.Flush
+	if ps.c.Property != "C16" || (f.Messages == 0 && f.Bytes == 0) || f.FreqMs > 0 || ps.c.Config.Sync {
+		return
+	}
+	if !strings.Contains(ps.historyClass(), "fault-free") {
+		return
+	}
+	rtt := int64(2*ps.c.Net.MaxUs + 2000)
+	if ps.c.Net.Model == "heavy" {
+		rtt *= 10
+	}
+	// the application simply waits (fake time costs nothing) until every request of the run has long been answered
+	if quiet, need := ps.r.k.nowUs()-ps.lastSubmitUs, int64(ps.produceReqs+8)*rtt+int64(ps.c.Config.DialTimeoutMs)*1000; quiet < need {
+		ps.r.nap(time.Duration(need-quiet) * time.Microsecond)
+	}
+	// ... and until the request pipeline has drained: no new produce request during four round trips
+	// (with Flush.MaxMessages=1 every message already submitted still needs a request of its own)
+	for i := 0; i < 100000; i++ {
+		n := ps.produceReqs
+		ps.r.nap(time.Duration(4*rtt) * time.Microsecond)
+		if ps.produceReqs == n {
+			break
+		}
+	}
+	if !strings.Contains(ps.historyClass(), "fault-free") {
+		return
+	}
+	type held struct {
+		n, bytes int
+		ids      []string
+	}
+	by := map[int32]*held{}
+	var brokers []int32
+	for _, mi := range ps.sortedMsgs() {
+		if !mi.submitted || mi.wireCount != 0 || len(mi.events) != 0 || len(mi.pcalls) != 1 {
+			continue
+		}
+		pc := mi.pcalls[0]
+		t := ps.cl.topics[mi.op.Topic]
+		if pc.err != nil || pc.choice < 0 || pc.choice >= pc.n || t == nil || int(pc.n) != len(t.parts) {
+			return // not the plain situation this rule is about
+		}
+		var part *mpart
+		for _, p := range t.parts {
+			if p.id == pc.choice {
+				part = p
+			}
+		}
+		if part == nil || part.leader < 0 {
+			return
+		}
+		h := by[part.leader]
+		if h == nil {
+			h = &held{}
+			by[part.leader] = h
+			brokers = append(brokers, part.leader)
+		}
+		h.n++
+		h.bytes += len(mi.key) + len(mi.val)
+		h.ids = append(h.ids, fmt.Sprintf("m%d", mi.id))
+	}
+	sort.Slice(brokers, func(i, j int) bool { return brokers[i] < brokers[j] })
+	for _, b := range brokers {
+		h := by[b]
+		ps.r.probe("held-back-messages-inspected-after-input-stopped")
+		if f.Messages > 0 && h.n >= f.Messages {
+			ps.r.violate("C16.flush-late", "input has been quiet for %d us, yet %d messages for broker %d (%v) are still held back although Flush.Messages=%d", ps.r.k.nowUs()-ps.lastSubmitUs, h.n, b, h.ids, f.Messages)
+		}
+		if f.Bytes > 0 && h.bytes >= f.Bytes {
+			ps.r.violate("C16.flush-late", "input has been quiet for %d us, yet messages for broker %d (%v) with %d key+value bytes are still held back although Flush.Bytes=%d", ps.r.k.nowUs()-ps.lastSubmitUs, b, h.ids, h.bytes, f.Bytes)
+		}
+	}
+}
+
 // historyClass: facts about the run so far that known-finding predicates may refer to.
 func (ps *prodScen) historyClass() string {
 	var cls []string
@@ -1041,7 +1141,7 @@ func (ps *prodScen) checkPartitionerContract(o *oraclePartitioner, m *sarama.Pro
 		key, _ = m.Key.Encode()
 	}
 	switch o.kind {
-	case "hash", "", "refhash", "customhash", "custom-absfirst", "custom-hashfn", "custom-fallback":
+	case "hash", "", "refhash", "customhash", "custom-absfirst", "custom-hashfn", "custom-fallback", "customhash-slow", "custom-hashfn-slow":
 		if m.Key == nil {
 			return
 		}
@@ -1213,6 +1313,63 @@ func (ps *prodScen) judge() {
 	}
 
 	// C16 oversize must be rejected; C17 bad choices must fail without sending; C18 trails
+	// C17: the producer refuses to partition further messages of a topic ("circuit breaker is open", partitioner never asked) only after three
+	// failures of the partition lookup or of the partitioner itself. A message that merely found no partition
+	// available (the partitioner was never asked, ErrLeaderNotAvailable, never on the wire) is failed on its own,
+	// and a message whose partitioner gave a usable answer passed the breaker: neither can explain a refusal.
+	// (Failures of any other kind are counted as possible causes: the rule is a necessary condition only.)
+	{
+		topicErrFault := false
+		for _, f := range c.Faults {
+			if f.Do == "topic-err" {
+				topicErrFault = true
+			}
+		}
+		causes := map[string]int{}
+		refused := map[string]*msgInfo{}
+		var refusedTopics []string
+		for _, mi := range msgs {
+			if !mi.submitted {
+				continue
+			}
+			for _, ev := range mi.events {
+				if ev.ok || ev.err == nil {
+					continue
+				}
+				if strings.Contains(ev.err.Error(), "circuit breaker is open") {
+					// (a message that was partitioned and is refused later met the per-partition breaker of the
+					// leader lookup, which is not this rule's subject)
+					if len(mi.pcalls) == 0 && refused[mi.op.Topic] == nil {
+						refused[mi.op.Topic] = mi
+						refusedTopics = append(refusedTopics, mi.op.Topic)
+					}
+					continue
+				}
+				badCall := false
+				for _, pc := range mi.pcalls {
+					if pc.err != nil || pc.choice < 0 || pc.choice >= pc.n {
+						badCall = true
+					}
+				}
+				switch {
+				case badCall:
+					causes[mi.op.Topic]++
+				case len(mi.pcalls) > 0:
+					// passed the breaker
+				case !topicErrFault && mi.wireCount == 0 && strings.Contains(ev.err.Error(), sarama.ErrLeaderNotAvailable.Error()):
+					// no partition available
+				default:
+					causes[mi.op.Topic]++
+				}
+			}
+		}
+		sort.Strings(refusedTopics)
+		for _, t := range refusedTopics {
+			if causes[t] < 3 {
+				r.violate("C17.refused-without-cause", "m%d of topic %s was refused with \"circuit breaker is open\" although only %d message(s) of the topic failed in the partition lookup or the partitioner in the whole run (three are needed; messages that found no partition available are failed one by one and do not count)", refused[t].id, t, causes[t])
+			}
+		}
+	}
 	for _, mi := range msgs {
 		if !mi.submitted {
 			continue
@@ -1375,6 +1532,11 @@ func (ps *prodScen) dupClass(mi *msgInfo, p *mpart, first int64, second *mrec) s
 		cls = append(cls, "cross-epoch")
 	} else {
 		cls = append(cls, "same-epoch")
+	}
+	if a != nil && a.batch.wb.epoch == second.batch.wb.epoch && len(a.batch.recs) == 1 && len(second.batch.recs) == 1 {
+		// both copies arrived alone in their batch under one epoch: a resend that keeps its sequence number is
+		// recognised by the broker whatever else was regrouped, so finding A (regrouped resends) cannot explain it
+		cls = append(cls, "alone-in-its-batch-both-times")
 	}
 	if a != nil && a.batch.faulted != "" {
 		cls = append(cls, "first-copy-ack-lost:"+a.batch.faulted)
